@@ -8,17 +8,44 @@ Probabilities are rationals (every float is one); the float rounding of the runn
 -/
 namespace QM.C14
 
+/-- **(T) `generated_core`** — the pieces regenerated from the source (`QGen.C14`, harness/c14_translate.py) are the ones
+every theorem below assumes: the loop tests `random_number < cumulative_sum` (strict), the running sum starts at 0,
+the fall-through returns `len − 1`. An edit of the comparison direction / start / fall-through in the source re-opens this. -/
+theorem generated_core (u c : Rat) (n : Int) :
+    (QGen.C14.hit u c = true ↔ u < c) ∧ QGen.C14.cumStart = 0 ∧ QGen.C14.fallThrough n = n - 1 :=
+  ⟨hit_iff u c, rfl, rfl⟩
+
+/-- **(T) `generated_empi_tests`** — the tests and offsets of `calc_empi_dist_sequence` regenerated from the source are the
+ones the theorems about empirical distributions assume: `measurement_num < 0`, `num_sum > len(data)`,
+`0 ≤ d < measurement_num`, hit at `index + 1 == next_num_sum`, division by `index + 1`, `former ≥ next`. -/
+theorem generated_empi_tests (m n len d former next : Int) (index : Nat) :
+    (QGen.C14.empiNegative m = true ↔ m < 0) ∧ (QGen.C14.empiTooLarge n len = true ↔ n > len) ∧
+    (QGen.C14.empiInRange d m = true ↔ 0 ≤ d ∧ d < m) ∧ (QGen.C14.empiHit index next = true ↔ (index : Int) + 1 = next) ∧
+    QGen.C14.empiDiv index = index + 1 ∧ (QGen.C14.empiNotIncreasing former next = true ↔ former ≥ next) := by
+  simp [QGen.C14.empiNegative, QGen.C14.empiTooLarge, QGen.C14.empiInRange, QGen.C14.empiHit, QGen.C14.empiDiv,
+    QGen.C14.empiNotIncreasing]
+
+example : QGen.C14.empiNotIncreasing 2 2 = true ∧ QGen.C14.empiHit 4 5 = true ∧ QGen.C14.empiInRange 3 3 = false := by decide
+
+/-- **(T) `toStream_table`** — `to_stream` as generated from the source: `None` → numpy's global state, an `int` → a
+*fresh* `Generator(MT19937(seed))`, a generator → the same object. -/
+theorem toStream_table {G : Type} (P : PRNG G) (s : Int) (k : Nat) :
+    toStream P .none = .glob ∧ toStream P (.int s) = .fresh (P.seed s) ∧ toStream P (.gen k) = .held k :=
+  ⟨rfl, rfl, rfl⟩
+
+example : QGen.C14.hit (1/2) (1/2) = false ∧ QGen.C14.hit (1/4) (1/2) = true := by decide +kernel
+
 /-- **C14.a `r2d_range`** — for a non-empty probability vector the sampled outcome is within range, whatever the
 random number and the entries. -/
 theorem r2d_range (probs : List Rat) (u : Rat) (h : probs ≠ []) :
     0 ≤ randomNumberToData probs u ∧ randomNumberToData probs u < probs.length := by
-  unfold randomNumberToData
+  rw [randomNumberToData_def]
   split
   · rename_i i hi
     have := r2dLoop_lt probs u 0 0 i hi
     omega
   · have : 0 < probs.length := List.length_pos_iff.2 h
-    omega
+    exact ⟨Int.sub_nonneg_of_le (by exact_mod_cast this), by linarith⟩
 
 /-- **C14.b `r2d_interval`** — cumulative-sum inversion: for non-negative entries and `0 ≤ u` the outcome is `i`
 exactly when `c_i ≤ u < c_{i+1}`; the preimage of `i` is a half-open interval of length `probs[i]`. -/
@@ -42,7 +69,7 @@ theorem r2d_interval (probs : List Rat) (hnn : ∀ p ∈ probs, 0 ≤ p) (u : Ra
       simp only [Rat.zero_add]; linarith
   constructor
   · rintro ⟨h1, h2⟩
-    unfold randomNumberToData at h1
+    rw [randomNumberToData_def] at h1
     split at h1
     · rename_i k hk
       have : k = i := by exact_mod_cast h1
@@ -53,7 +80,7 @@ theorem r2d_interval (probs : List Rat) (hnn : ∀ p ∈ probs, 0 ≤ p) (u : Ra
       linarith
   · intro h
     have hs := key.2 h
-    refine ⟨by simp [randomNumberToData, hs], ?_⟩
+    refine ⟨by simp [randomNumberToData_def, hs], ?_⟩
     have := sum_take_le_sum probs hnn (i + 1)
     linarith
 
@@ -68,7 +95,7 @@ theorem r2d_pos (probs : List Rat) (hnn : ∀ p ∈ probs, 0 ≤ p) (u : Rat) (h
   | some i =>
     have hi := (r2dLoop_lt probs u 0 0 i h).2
     simp only [Nat.zero_add] at hi
-    have hr : randomNumberToData probs u = i := by simp [randomNumberToData, h]
+    have hr : randomNumberToData probs u = i := by simp [randomNumberToData_def, h]
     have := (r2d_interval probs hnn u hu i hi).1 ⟨hr, hlt⟩
     refine ⟨i, hi, hr, ?_⟩
     have hs := List.sum_take_succ probs i hi
@@ -79,7 +106,7 @@ sub-normalised vector) the loop falls through and the *last* outcome is returned
 theorem r2d_residual (probs : List Rat) (hnn : ∀ p ∈ probs, 0 ≤ p) (u : Rat) (hu : 0 ≤ u) (hge : probs.sum ≤ u) :
     randomNumberToData probs u = (probs.length : Int) - 1 := by
   have := (r2dLoop_none_iff probs hnn u 0 0 hu).2 (by linarith)
-  simp [randomNumberToData, this]
+  simp [randomNumberToData_def, this]
 
 /-- the residual branch can deliver a zero-probability outcome (sub-normalised vector, `u` just below 1) -/
 example : randomNumberToData [1/4, 1/2, 0] (7/8) = 2 := by decide +kernel
@@ -113,7 +140,7 @@ data enters. ∀ outcome counts, data lengths, numbers of sample sizes. -/
 theorem empi_counts (mnum : Int) (data : List Int) (ns : List Int) (out : List (Int × List Rat))
     (hpos : ∀ n ∈ ns, 0 < n) (h : calcEmpiDistSequence mnum data ns = .ok out) :
     out = ns.map (empiEntry mnum.toNat data) := by
-  unfold calcEmpiDistSequence at h
+  rw [calcEmpiDistSequence_def] at h
   split at h
   · cases h
   · split at h
@@ -185,7 +212,7 @@ theorem empi_ok_iff (mnum : Int) (data : List Int) (n0 : Int) (rest : List Int) 
     (∃ out, calcEmpiDistSequence mnum data (n0 :: rest) = .ok out) ↔
       0 ≤ mnum ∧ Increasing (n0 :: rest) ∧ (∀ n ∈ n0 :: rest, n ≤ (data.length : Int)) ∧
         ∀ x ∈ data.take (lastD n0 rest).toNat, 0 ≤ x ∧ x < mnum := by
-  unfold calcEmpiDistSequence
+  rw [calcEmpiDistSequence_def]
   by_cases hm : mnum < 0
   · simp only [hm, if_true, reduceCtorEq, exists_false, false_iff]
     intro h; omega
@@ -225,7 +252,7 @@ theorem empi_error_sound (mnum : Int) (data : List Int) (ns : List Int) (e : Emp
     (∃ i d, e = .dataOutOfRange i ∧ data[i]? = some d ∧ ¬ (0 ≤ d ∧ d < mnum) ∧
         ∀ j x, j < i → data[j]? = some x → 0 ≤ x ∧ x < mnum) ∨
     (∃ p a b, e = .notIncreasing (p + 1) ∧ ns[p]? = some a ∧ ns[p + 1]? = some b ∧ a ≥ b) := by
-  unfold calcEmpiDistSequence at h
+  rw [calcEmpiDistSequence_def] at h
   split at h
   · rename_i hm; injection h with h; subst h; exact Or.inl ⟨rfl, hm⟩
   · rename_i hm
@@ -277,7 +304,7 @@ theorem empi_first_size_nonpositive (mnum : Int) (data : List Int) (n0 : Int) (r
     (hm : 0 ≤ mnum) (hn : n0 ≤ 0) (hr : ∀ x ∈ data, 0 ≤ x ∧ x < mnum) :
     calcEmpiDistSequence mnum data (n0 :: rest) = .ok [] := by
   have hcast : ((mnum.toNat : Nat) : Int) = mnum := Int.toNat_of_nonneg hm
-  unfold calcEmpiDistSequence
+  rw [calcEmpiDistSequence_def]
   rw [if_neg (by omega)]
   simp only []
   rw [if_neg (by omega)]
@@ -296,12 +323,12 @@ theorem empi_validation (mnum : Int) (data : List Int) (ns : List Int) :
     (∀ d ds n0 rest, 0 ≤ mnum → n0 ≤ ((d :: ds).length : Int) → ¬ (0 ≤ d ∧ d < mnum) →
         calcEmpiDistSequence mnum (d :: ds) (n0 :: rest) = .error (.dataOutOfRange 0)) := by
   refine ⟨?_, ?_, ?_, ?_⟩
-  · intro h; simp [calcEmpiDistSequence, h]
-  · intro h; simp [calcEmpiDistSequence, Int.not_lt.2 h]
-  · intro n0 rest h hl; simp [calcEmpiDistSequence, Int.not_lt.2 h, hl]
+  · intro h; simp [calcEmpiDistSequence_def, h]
+  · intro h; simp [calcEmpiDistSequence_def, Int.not_lt.2 h]
+  · intro n0 rest h hl; simp [calcEmpiDistSequence_def, Int.not_lt.2 h, hl]
   · intro d ds n0 rest h hl hd
     have hm : ((mnum.toNat : Nat) : Int) = mnum := Int.toNat_of_nonneg h
-    simp only [calcEmpiDistSequence, Int.not_lt.2 h, if_false, Int.not_lt.2 hl, empiLoop, hm]
+    simp only [calcEmpiDistSequence_def, Int.not_lt.2 h, if_false, Int.not_lt.2 hl, empiLoop_cons, hm]
     rw [if_pos hd]
 
 example : calcEmpiDistSequence 3 [0, 1, 2, 2, 1] [2, 5] = .ok [(2, [1/2, 1/2, 0]), (5, [1/5, 2/5, 2/5])] := by
@@ -317,17 +344,17 @@ the store (global numpy state, every generator object the caller holds — i.e. 
 draws) does not occur in the result and is left unchanged. -/
 theorem seed_int_pure {G : Type} (P : PRNG G) (st : Store G) (s : Int) (probs : List Rat) (n : Nat) :
     genData P st (.int s) probs n = some (dataOfUniforms probs (drawN P (P.seed s) n).1, st) := by
-  simp [genData, toStream, genDataOn_fresh]
+  simp [genData, toStream_int, genDataOn_fresh]
 
 /-- same for `Experiment.generate_dataset` (all schedules draw successively from the one fresh generator) … -/
 theorem seed_int_pure_dataset {G : Type} (P : PRNG G) (st : Store G) (s : Int) (jobs : List (List Rat × Nat)) :
     genDataset P st (.int s) jobs = some ((datasetPure P (P.seed s) jobs).1, st) := by
-  simp [genDataset, toStream, genDatasetOn_fresh]
+  simp [genDataset, toStream_int, genDatasetOn_fresh]
 
 /-- … and for `generate_empi_dists_sequence_from_prob_dists` (multinomial draws, schedule-major). -/
 theorem seed_int_pure_empis {G : Type} (P : PRNG G) (st : Store G) (s : Int) (jobs : List (List Rat × List Int)) :
     genEmpisSeq P st (.int s) jobs = some ((empisSeqPure P (P.seed s) jobs).1, st) := by
-  simp [genEmpisSeq, toStream, genEmpisSeqOn_fresh]
+  simp [genEmpisSeq, toStream_int, genEmpisSeqOn_fresh]
 
 /-- spec pin for the dataset: schedule `k+1` continues the uniform stream where schedule `k` stopped -/
 theorem datasetPure_cons {G : Type} (P : PRNG G) (g : G) (probs : List Rat) (n : Nat) (rest : List (List Rat × Nat)) :
@@ -350,8 +377,8 @@ theorem shared_stream_advances {G : Type} (P : PRNG G) (st : Store G) (k : Nat) 
   let g2 := (drawN P g1 n2).2
   refine ⟨dataOfUniforms probs (drawN P g n1).1, dataOfUniforms probs (drawN P g1 n2).1,
     { st with gens := st.gens.set k g1 }, { st with gens := (st.gens.set k g1).set k g2 }, ?_, ?_, ?_, ?_, ?_⟩
-  · simp [genData, toStream, genDataOn, Stream.get, Stream.put, hk, g1]
-  · simp [genData, toStream, genDataOn, Stream.get, Stream.put, hlt, g1, g2]
+  · simp [genData, toStream_gen, genDataOn, Stream.get, Stream.put, hk, g1]
+  · simp [genData, toStream_gen, genDataOn, Stream.get, Stream.put, hlt, g1, g2]
   · rw [drawN_add]; simp [dataOfUniforms, g1]
   · rw [drawN_add]; simp [g1, g2]
   · rfl
@@ -366,7 +393,40 @@ theorem global_stream {G : Type} (P : PRNG G) (st : Store G) (probs : List Rat) 
         some (dataOfUniforms probs (drawN P (reseed s) n).1,
               { st with glob := (drawN P (reseed s) n).2 }) ∧
     resetSeedData reseed st none = st := by
-  refine ⟨by simp [genData, toStream, genDataOn, Stream.get, Stream.put],
-    by simp [genData, toStream, genDataOn, Stream.get, Stream.put, resetSeedData], rfl⟩
+  refine ⟨by simp [genData, toStream_none, genDataOn, Stream.get, Stream.put],
+    by simp [genData, toStream_none, genDataOn, Stream.get, Stream.put, resetSeedData], rfl⟩
+
+
+/-! ## the pipeline: uniforms → data → empirical distributions -/
+
+/-- **C14.k `empi_of_stream_prefix`** — the sampling pipeline end to end (`generate_data_from_prob_dist` after the
+uniforms are drawn, then `calc_empi_dist_sequence` with `measurement_num = len(probs)`): for valid sample sizes the run
+always succeeds, and the entry for `n` is the `n`-shot empirical distribution of the *first `n` uniforms of the same
+stream* — counts of `dataOfUniforms probs (us.take n)` divided by `n` — for every `n` requested, whatever follows. -/
+theorem empi_of_stream_prefix (probs : List Rat) (hnn : ∀ p ∈ probs, 0 ≤ p) (us : List Rat)
+    (hus : ∀ u ∈ us, 0 ≤ u ∧ u < probs.sum) (n0 : Int) (rest : List Int) (hpos : 0 < n0)
+    (hinc : Increasing (n0 :: rest)) (hle : ∀ n ∈ n0 :: rest, n ≤ (us.length : Int)) :
+    calcEmpiDistSequence probs.length (dataOfUniforms probs us) (n0 :: rest) =
+      .ok ((n0 :: rest).map fun n =>
+        (n, (countsOf probs.length (dataOfUniforms probs (us.take n.toNat))).map
+              fun (c : Nat) => ((c : Int) : Rat) / (n : Rat))) := by
+  have hlen : (dataOfUniforms probs us).length = us.length := by simp [dataOfUniforms]
+  have hrange : ∀ x ∈ dataOfUniforms probs us, 0 ≤ x ∧ x < (probs.length : Int) := by
+    intro x hx
+    obtain ⟨i, hi, rfl, _⟩ := (data_valid probs hnn us hus).2 x hx
+    exact ⟨by omega, by exact_mod_cast hi⟩
+  obtain ⟨out, hout⟩ := (empi_ok_iff probs.length (dataOfUniforms probs us) n0 rest hpos).2
+    ⟨by omega, hinc, by rw [hlen]; exact hle, fun x hx => hrange x (List.mem_of_mem_take hx)⟩
+  have hall : ∀ n ∈ n0 :: rest, 0 < n := fun n hn => by
+    have := head_le_of_increasing n0 rest hinc n hn; omega
+  rw [hout, empi_counts _ _ _ out hall hout]
+  congr 1
+  apply List.map_congr_left
+  intro n _
+  simp only [empiEntry, Int.toNat_natCast, dataOfUniforms, List.map_take]
+
+example : calcEmpiDistSequence 3 (dataOfUniforms [1/2, 1/4, 1/4] [0, 3/4, 1/2, 7/8]) [2, 4] =
+    .ok [(2, [1/2, 0, 1/2]), (4, [1/4, 1/4, 1/2])] := by decide +kernel
+
 
 end QM.C14
